@@ -9,3 +9,7 @@ func allBits(b *setz.Bits) []uint {
 	b.All()(func(v uint) bool { out = append(out, v); return true })
 	return out
 }
+
+// the iterator value of Bits.All is taken once (when the adapter is reset) and ranged at every observation: first a
+// pass that stops after one value, then a full one
+func heldBits(b *setz.Bits) func(func(uint) bool) { return b.All() }
